@@ -4,8 +4,8 @@
 From Coq Require Import List ZArith Bool Lia.
 Import ListNotations.
 From Goat Require Import Model.Client Proofs.ClientBase Proofs.ProtocolClient Proofs.ClientCancel.
-From Goat Require Model.Server.
-From Goat Require Import Proofs.ServerCancel.
+From Goat Require Model.Server Model.Sys.
+From Goat Require Import Proofs.ServerCancel Proofs.ServerReset Proofs.SysLog Proofs.SysC01 Proofs.SysCancel.
 Open Scope Z_scope.
 
 (* ---- the caller ---- *)
@@ -87,6 +87,48 @@ Theorem C07_no_orphan_partial : forall (s : Server.state),
 Proof. exact ServerCancel.C07_srv_all_read_l. Qed.
 Print Assumptions C07_no_orphan_partial.
 
+(* if the LAST stream-method envelope of id i that the server has read is a reset ([armed]: a later envelope of the id
+   that could open a new stream disarms it), every registered handler of id i has a done context *)
+Theorem C07_last_reset_cancels : forall nw ls (s : Server.state) i h k,
+  Server.lrun (Server.init_n nw) ls = Some s -> armed i (sreads (Server.log s)) = true ->
+  nth_error (Server.hs s) h = Some k -> Server.h_reg k = true -> Server.fid (Server.h_req k) = i ->
+  Server.hdone s k = true.
+Proof. exact ServerReset.C07_last_reset_cancels_l. Qed.
+Print Assumptions C07_last_reset_cancels.
+
+(* ---- end to end, on the product model Model/Sys.v (client x server x two FIFO wires) ---- *)
+(* For every run of the system (any handler policy, any interleaving): a stream call of the client that is done with
+   the Canceled / DeadlineExceeded status, received no trailer and was not aborted - API-conformant users, transport
+   writes never made to fail (conditions on the client's projected label sequence) - has put EXACTLY ONE reset on the
+   client-to-server wire; and once that wire is empty and the server has read everything handed to it, every registered
+   handler of the stream's id has a done context. *)
+Theorem C07_sys : forall pol ls (s : Sys.state) c k,
+  Sys.lrun pol Sys.init ls = Some s ->
+  no_wfail (Sys.proj_c pol Sys.init ls) -> api_ok (Sys.proj_c pol Sys.init ls) ->
+  nth_error (calls (Sys.cl s)) c = Some k -> k_pc k = POpen -> s_done k = true -> is_ctx_err (s_rerr k) = true ->
+  l_hastrl k = false -> l_abort k = false ->
+  nrst (projE (k_id k) (map Server.f_env (Sys.sent_c2s s))) = 1%nat /\
+  (Sys.c2s s = [] -> Server.inbox (Sys.sv s) = [] ->
+   forall h kh, nth_error (Server.hs (Sys.sv s)) h = Some kh -> Server.h_reg kh = true ->
+                Server.fid (Server.h_req kh) = k_id k -> Server.hdone (Sys.sv s) kh = true).
+Proof. exact SysCancel.C07_sys_l. Qed.
+Print Assumptions C07_sys.
+
+(* (Q) in every quiescent state of the system whose server read loop is at its Read (not held by back-pressure -
+   finding reset-behind-backpressure - and not gone): after the caller's context has ended, exactly one reset is on
+   the wire and the handler context of that id is done *)
+Theorem C07_sys_quiescent : forall pol ls (s : Sys.state) c k,
+  Sys.lrun pol Sys.init ls = Some s ->
+  no_wfail (Sys.proj_c pol Sys.init ls) -> api_ok (Sys.proj_c pol Sys.init ls) ->
+  Sys.quiescent s = true -> Server.rd (Sys.sv s) = Server.RdRead ->
+  nth_error (calls (Sys.cl s)) c = Some k -> k_pc k = POpen -> sctx_done k = true -> is_ctx_err (s_rerr k) = true ->
+  l_hastrl k = false -> l_abort k = false ->
+  nrst (projE (k_id k) (map Server.f_env (Sys.sent_c2s s))) = 1%nat /\
+  forall h kh, nth_error (Server.hs (Sys.sv s)) h = Some kh -> Server.h_reg kh = true ->
+               Server.fid (Server.h_req kh) = k_id k -> Server.hdone (Sys.sv s) kh = true.
+Proof. exact SysCancel.C07_sys_quiescent_l. Qed.
+Print Assumptions C07_sys_quiescent.
+
 (* ---- the strict receive statement ---- *)
 (* A stream whose loop was still running when its context ended (the call had not completed: cancelled_running) ends,
    in every quiescent state of every continuation, done with a terminal error x that is the Canceled /
@@ -134,4 +176,29 @@ Example C07_applies :
   end /\
   filter (fun e => match e with EvRecvRet _ _ | EvSendRet _ _ => true | _ => false end) (log s)
   = [EvSendRet 0 None; EvRecvRet 0 (RErr ECanceled); EvSendRet 0 (Some ECanceled)].
+Proof. vm_compute. repeat split; reflexivity. Qed.
+
+(* end to end: a bidi stream, one message read by the handler, then the caller cancels: the reset crosses the wire,
+   the handler (still registered, at its gate) is cancelled; exactly one reset was sent *)
+Definition c07_sys_ls : list Sys.label :=
+  drive_labels Sys.pol_any mix3 Sys.init
+    [U (ANewStream false); U (ASend 0 11); Hs 0 Server.HRecv; U (ACancel 0)].
+
+Example C07_sys_applies :
+  match Sys.lrun Sys.pol_any Sys.init c07_sys_ls with
+  | Some s =>
+      api_okb (Sys.proj_c Sys.pol_any Sys.init c07_sys_ls) = true /\
+      forallb (fun l => negb (is_wfail_on l)) (Sys.proj_c Sys.pol_any Sys.init c07_sys_ls) = true /\
+      Sys.c2s s = [] /\ Server.inbox (Sys.sv s) = [] /\
+      match nth_error (calls (Sys.cl s)) 0 with
+      | Some k => k_pc k = POpen /\ s_done k = true /\ s_rerr k = Some ECanceled /\ l_hastrl k = false /\ l_abort k = false /\
+                  nrst (projE (k_id k) (map Server.f_env (Sys.sent_c2s s))) = 1%nat
+      | None => False
+      end /\
+      match nth_error (Server.hs (Sys.sv s)) 0 with
+      | Some kh => Server.h_reg kh = true /\ Server.h_cancel kh = true
+      | None => False
+      end
+  | None => False
+  end.
 Proof. vm_compute. repeat split; reflexivity. Qed.
